@@ -10,6 +10,7 @@ import (
 	"sort"
 	"strings"
 	"sync"
+	"time"
 	"unicode"
 
 	"github.com/samsarahq/thunder/internal/fields"
@@ -898,6 +899,13 @@ func driverValuesEqual(dv1, dv2 driver.Value) bool {
 			}
 		}
 		return false
+	}
+
+	// Times are equal if they denote the same instant: a value read back from the
+	// database or the binlog is in UTC whatever location the filter's time was in.
+	if t1, ok := dv1.(time.Time); ok {
+		t2, ok := dv2.(time.Time)
+		return ok && t1.Equal(t2)
 	}
 
 	// Naive equality check for remaining primitive types.
